@@ -1,6 +1,6 @@
 SPECIFICATION Spec
 CONSTANTS
-  Inputs = {"zine", "rot", "text", "walden", "form", "simple3", "tree5", "objstm4"}
+  Inputs = {"zine", "rot", "text", "walden", "form", "simple3", "nested5", "tree5", "objstm4"}
   MaxLen = 3
   Emit = TRUE
 INVARIANTS TypeOK EmitCase
